@@ -82,7 +82,7 @@ type c18Spec struct {
 	Restart   *restartRule `json:"restart,omitempty"`
 }
 
-var c18Profiles = []string{"baseline", "expire-after-replay", "expire-after-claim", "starve-heartbeat", "restart-two", "restart-one", "expire-late"}
+var c18Profiles = []string{"baseline", "expire-after-replay", "expire-after-claim", "starve-heartbeat", "restart-two", "restart-one", "expire-late", "expire-replay-slow-inner"}
 
 func genC18Spec(rng *vkit.Rand, index int) c18Spec {
 	rg := rng.Fork(fmt.Sprintf("c18-case-%d", index))
@@ -94,37 +94,8 @@ func genC18Spec(rng *vkit.Rand, index int) c18Spec {
 		s.Inner = "sql"
 	}
 	s.Instances = 2
-	switch s.Profile {
-	case "baseline":
+	if s.Profile == "baseline" || s.Profile == "restart-one" {
 		s.Instances = 1
-		if rg.Chance(50) {
-			s.Hooks = append(s.Hooks, hookRule{Point: "tx.commit.after-db", Every: rg.Range(2, 5), DelayMs: rg.Range(1, 3)})
-		}
-	case "expire-after-replay":
-		s.Hooks = append(s.Hooks, hookRule{Point: "partoutbox.after-replay", Hits: pickHits(rg, 4, 24), DelayMs: rg.Range(60, 110)})
-	case "expire-after-claim":
-		s.Hooks = append(s.Hooks, hookRule{Point: "partoutbox.after-claim", Hits: pickHits(rg, 4, 24), DelayMs: rg.Range(60, 110)})
-	case "starve-heartbeat":
-		s.Stalls = append(s.Stalls, stallRule{Op: "put", Hits: pickHits(rg, 3, 8), Where: vkit.Pick(rg, []string{"before", "eof", "after-read", "after-read"}), DelayMs: rg.Range(80, 140)})
-		if rg.Chance(50) {
-			s.Stalls = append(s.Stalls, stallRule{Op: "del", Hits: pickHits(rg, 2, 5), Where: "before", DelayMs: rg.Range(60, 100)})
-		}
-	case "restart-two":
-		s.Restart = &restartRule{AfterMs: rg.Range(10, 80), Inst: 1}
-		s.Hooks = append(s.Hooks, hookRule{Point: "partoutbox.after-replay", Hits: pickHits(rg, 2, 6), DelayMs: rg.Range(50, 90)})
-		s.Stalls = append(s.Stalls, stallRule{Op: "put", Hits: pickHits(rg, 2, 6), Where: "before", DelayMs: rg.Range(20, 60)})
-	case "expire-late":
-		// the lease of one of the last entries expires while its worker is paused
-		// for longer than the other worker's 1 s poll interval
-		pt := vkit.Pick(rg, []string{"partoutbox.after-claim", "partoutbox.after-replay"})
-		s.Hooks = append(s.Hooks, hookRule{Point: pt, Hits: pickHitsIn(rg, 2, 16, 30), DelayMs: rg.Range(1150, 1400)})
-	case "restart-one":
-		s.Instances = 1
-		s.Restart = &restartRule{AfterMs: rg.Range(10, 80), Inst: 0}
-		s.Hooks = append(s.Hooks, hookRule{Point: "partoutbox.after-claim", Hits: pickHits(rg, 2, 5), DelayMs: rg.Range(40, 80)})
-	}
-	if rg.Chance(40) {
-		s.Hooks = append(s.Hooks, hookRule{Point: "tx.commit.before-db", Every: rg.Range(3, 7), DelayMs: rg.Range(1, 4)})
 	}
 	holdPuts := s.Profile == "starve-heartbeat" || rg.Chance(30)
 	seq := 0
@@ -185,7 +156,57 @@ func genC18Spec(rng *vkit.Rand, index int) c18Spec {
 		}
 		s.Readers = append(s.Readers, ops)
 	}
+	// nW = number of outbox entries this case produces; hook hit numbers are
+	// spread over the whole run, including the last entries (damage done to
+	// the inner store by an early entry is usually repaired by later writes)
+	nW := 0
+	for _, w := range s.Writers {
+		nW += len(w)
+	}
+	switch s.Profile {
+	case "baseline":
+		if rg.Chance(50) {
+			s.Hooks = append(s.Hooks, hookRule{Point: "tx.commit.after-db", Every: rg.Range(2, 5), DelayMs: rg.Range(1, 3)})
+		}
+	case "expire-after-replay":
+		s.Hooks = append(s.Hooks, hookRule{Point: "partoutbox.after-replay", Hits: append(pickHits(rg, 3, nW-4), pickHitsIn(rg, 1, nW-3, nW)...), DelayMs: rg.Range(60, 110)})
+	case "expire-after-claim":
+		s.Hooks = append(s.Hooks, hookRule{Point: "partoutbox.after-claim", Hits: append(pickHits(rg, 3, nW-4), pickHitsIn(rg, 1, nW-3, nW)...), DelayMs: rg.Range(60, 110)})
+	case "starve-heartbeat":
+		s.Stalls = append(s.Stalls, stallRule{Op: "put", Hits: pickHits(rg, 3, 8), Where: vkit.Pick(rg, []string{"before", "eof", "after-read", "after-read"}), DelayMs: rg.Range(80, 140)})
+		if rg.Chance(50) {
+			s.Stalls = append(s.Stalls, stallRule{Op: "del", Hits: pickHits(rg, 2, 5), Where: "before", DelayMs: rg.Range(60, 100)})
+		}
+	case "restart-two":
+		s.Restart = &restartRule{AfterMs: rg.Range(10, 80), Inst: 1}
+		s.Hooks = append(s.Hooks, hookRule{Point: "partoutbox.after-replay", Hits: pickHits(rg, 2, 6), DelayMs: rg.Range(50, 90)})
+		s.Stalls = append(s.Stalls, stallRule{Op: "put", Hits: pickHits(rg, 2, 6), Where: "before", DelayMs: rg.Range(20, 60)})
+	case "expire-replay-slow-inner":
+		// the first owner sleeps between replay and finalize while the worker that
+		// takes the entry over is itself slow inside the inner store
+		s.Hooks = append(s.Hooks, hookRule{Point: "partoutbox.after-replay", Hits: append(pickHits(rg, 4, nW-4), pickHitsIn(rg, 2, nW-3, nW)...), DelayMs: rg.Range(60, 100)})
+		s.Stalls = append(s.Stalls, stallRule{Op: "put", Hits: everyOther(rg, 30), Where: vkit.Pick(rg, []string{"before", "after-read"}), DelayMs: rg.Range(40, 90)})
+	case "expire-late":
+		// the lease of one of the last entries expires while its worker is paused
+		// for longer than the other worker's 1 s poll interval
+		pt := vkit.Pick(rg, []string{"partoutbox.after-claim", "partoutbox.after-replay"})
+		s.Hooks = append(s.Hooks, hookRule{Point: pt, Hits: pickHitsIn(rg, 2, nW-8, nW), DelayMs: rg.Range(1150, 1400)})
+	case "restart-one":
+		s.Restart = &restartRule{AfterMs: rg.Range(10, 80), Inst: 0}
+		s.Hooks = append(s.Hooks, hookRule{Point: "partoutbox.after-claim", Hits: pickHits(rg, 2, 5), DelayMs: rg.Range(40, 80)})
+	}
+	if rg.Chance(40) {
+		s.Hooks = append(s.Hooks, hookRule{Point: "tx.commit.before-db", Every: rg.Range(3, 7), DelayMs: rg.Range(1, 4)})
+	}
 	return s
+}
+
+func everyOther(rg *vkit.Rand, max int) []int {
+	var hs []int
+	for i := 1 + rg.Intn(2); i <= max; i += 2 {
+		hs = append(hs, i)
+	}
+	return hs
 }
 
 func pickHitsIn(rg *vkit.Rand, count, lo, hi int) []int {
@@ -350,6 +371,9 @@ type c18StaleOp struct {
 	// pithos had granted it (claim_until of the claim / last heartbeat) was
 	// still in the future according to the taker's own "now" argument.
 	Premature bool `json:"premature_takeover,omitempty"`
+	// FinalizedByNonOwner: the entry was deleted by a worker that did not hold
+	// its claim while this worker (the claim holder) was still replaying it.
+	FinalizedByNonOwner bool `json:"finalized_by_non_owner,omitempty"`
 }
 
 type recRepo struct {
@@ -363,6 +387,8 @@ type recRepo struct {
 	lastUntil    map[string]time.Time
 	premature    map[string]bool // entry id -> taken over before its lease expired
 	prematureN   int64
+	nonOwnerFin  map[string]bool // entry id -> finalized by a worker that was not the claim holder
+	nonOwnerFinN int64
 	claims       int64
 	takeovers    int64
 	finalized    int64
@@ -375,14 +401,14 @@ type recRepo struct {
 
 // claimLost reports whether worker l no longer holds the claim of the entry it
 // claimed last (somebody else took it over, or it was already finalized).
-func (r *recRepo) claimLost(l string) (entry string, lost, premature bool) {
+func (r *recRepo) claimLost(l string) (entry string, lost, premature, nonOwnerFinalize bool) {
 	r.mu.Lock()
 	defer r.mu.Unlock()
 	e := r.current[l]
 	if e == "" {
-		return "", false, false
+		return "", false, false, false
 	}
-	return e, r.lastOwner[e] != l || r.finalizedIds[e], r.premature[e]
+	return e, r.lastOwner[e] != l || r.finalizedIds[e], r.premature[e], r.lastOwner[e] == l && r.nonOwnerFin[e]
 }
 
 func short(id string) string {
@@ -430,6 +456,10 @@ func (r *recRepo) DeletePartOutboxEntryByClaimOwner(ctx context.Context, tx *sql
 		if ok {
 			r.finalized++
 			r.finalizedIds[id.String()] = true
+			if r.lastOwner[id.String()] != l {
+				r.nonOwnerFin[id.String()] = true
+				r.nonOwnerFinN++
+			}
 		} else {
 			r.finalizeLost++
 		}
@@ -534,13 +564,13 @@ func (s *stallStore) noteReplay(ctx context.Context, kind string, part int, tx d
 	who := instLabel(ctx)
 	s.c.innerInflight.Add(1)
 	defer s.c.innerInflight.Add(-1)
-	entry, lostAtBegin, prem1 := s.c.repo.claimLost(who)
+	entry, lostAtBegin, prem1, nof1 := s.c.repo.claimLost(who)
 	begin := tick()
 	s.c.evMu.Lock()
 	s.c.events = append(s.c.events, c18Event{T: begin, Who: who, Ev: "inner-" + kind + "-begin", Part: part, Info: fmt.Sprintf("entry=%s tx=%v claim-lost=%v", short(entry), tx != nil, lostAtBegin)})
 	s.c.evMu.Unlock()
 	err := run()
-	_, lostAtEnd, prem2 := s.c.repo.claimLost(who)
+	_, lostAtEnd, prem2, nof2 := s.c.repo.claimLost(who)
 	s.c.logEvent(who, "inner-"+kind+"-end", part, fmt.Sprintf("claim-lost=%v err=%s", lostAtEnd, errString(err)))
 	if lostAtBegin || lostAtEnd {
 		k := "stale-put"
@@ -548,7 +578,7 @@ func (s *stallStore) noteReplay(ctx context.Context, kind string, part int, tx d
 			k = "stale-delete"
 		}
 		s.c.evMu.Lock()
-		s.c.stale = append(s.c.stale, c18StaleOp{Begin: begin, Part: part, Kind: k, Who: who, Premature: prem1 || prem2})
+		s.c.stale = append(s.c.stale, c18StaleOp{Begin: begin, Part: part, Kind: k, Who: who, Premature: prem1 || prem2, FinalizedByNonOwner: nof1 || nof2})
 		s.c.evMu.Unlock()
 	}
 	return err
@@ -853,7 +883,7 @@ func execC18(spec c18Spec, dir string) *c18Outcome {
 		out.SetupErr = err.Error()
 		return out
 	}
-	c.repo = &recRepo{Repository: baseRepo, c: c, lastOwner: map[string]string{}, finalizedIds: map[string]bool{}, current: map[string]string{}, lastUntil: map[string]time.Time{}, premature: map[string]bool{}, entryPart: map[string]int{}}
+	c.repo = &recRepo{Repository: baseRepo, c: c, lastOwner: map[string]string{}, finalizedIds: map[string]bool{}, current: map[string]string{}, lastUntil: map[string]time.Time{}, premature: map[string]bool{}, nonOwnerFin: map[string]bool{}, entryPart: map[string]int{}}
 	observer, err := c.newInner()
 	if err == nil {
 		err = observer.Start(context.Background())
@@ -1008,6 +1038,7 @@ func execC18(spec c18Spec, dir string) *c18Outcome {
 	out.counters["worker_claims"] = c.repo.claims
 	out.counters["lease_takeovers"] = c.repo.takeovers
 	out.counters["lease_takeovers_before_expiry"] = c.repo.prematureN
+	out.counters["entries_finalized_by_non_owner"] = c.repo.nonOwnerFinN
 	out.counters["worker_finalized"] = c.repo.finalized
 	out.counters["worker_finalize_lost"] = c.repo.finalizeLost
 	out.counters["worker_released"] = c.repo.released
